@@ -262,12 +262,13 @@ func (m *Model) eval(e Expr) (Val, bool) {
 		}
 		panic("model: unary op")
 	case *IncDec:
-		s := m.lref(x.X)
-		old := m.num(s.V)
+		p := m.lpathOf(x.X)
+		old := m.num(m.pathRead(p))
 		nv := old + 1
 		if x.Op == "--" {
 			nv = old - 1
 		}
+		s := m.pathSlot(p)
 		m.store(s, mNum(nv), false)
 		m.stats["incdec"]++
 		if x.Prefix {
@@ -493,22 +494,70 @@ func (m *Model) evalBinary(x *Binary) Val {
 }
 
 func (m *Model) evalAssign(x *Assign) (Val, bool) {
-	s := m.lref(x.L)
+	// left path first (its index expressions), then the right-hand side, then the store
+	p := m.lpathOf(x.L)
 	var v Val
 	var fresh bool
 	if x.Op == "=" {
 		v, fresh = m.eval(x.R)
 	} else {
-		// a op= b means a = a op b with a evaluated twice; targets have no side effects
-		cur := s.V
+		// a op= b means a = a op b
+		cur := m.pathRead(p)
 		r, _ := m.eval(x.R)
-		op := x.Op[:1]
-		v = m.arith(op, cur, r)
+		v = m.arith(x.Op[:1], cur, r)
 	}
-	// the target may have been re-created by the right-hand side; generated targets are stable
+	s := m.pathSlot(p)
 	m.store(s, v, fresh)
 	m.stats["store"]++
 	return s.V, false
+}
+
+// lpath: an assignable path with its index expressions already evaluated.
+type lpath struct {
+	base *Slot
+	keys []Val
+}
+
+func (m *Model) lpathOf(e Expr) lpath {
+	m.step()
+	switch x := e.(type) {
+	case *Paren:
+		return m.lpathOf(x.X)
+	case *Member:
+		p := m.lpathOf(x.X)
+		p.keys = append(p.keys[:len(p.keys):len(p.keys)], mStr(x.Name))
+		return p
+	case *Index:
+		p := m.lpathOf(x.X)
+		k, _ := m.eval(x.I)
+		p.keys = append(p.keys[:len(p.keys):len(p.keys)], k)
+		return p
+	}
+	return lpath{base: m.lref(e)}
+}
+
+// pathRead: the current value at the path, creating nothing.
+func (m *Model) pathRead(p lpath) Val {
+	v := p.base.V
+	for _, k := range p.keys {
+		if v.K == KUnset {
+			return mNull()
+		}
+		v = m.memberOfVal(v, k)
+		if v.K == KNative {
+			m.tag("pinned:store-method-name")
+		}
+	}
+	return v
+}
+
+// pathSlot materialises the path (missing intermediates are created) and returns the slot.
+func (m *Model) pathSlot(p lpath) *Slot {
+	s := p.base
+	for _, k := range p.keys {
+		s = m.childSlot(s, k)
+	}
+	return s
 }
 
 func (m *Model) arith(op string, l, r Val) Val {
@@ -733,13 +782,8 @@ func (m *Model) lref(e Expr) *Slot {
 			return s
 		}
 		return m.lookup(x.Name)
-	case *Member:
-		bs := m.lref(x.X)
-		return m.childSlot(bs, mStr(x.Name))
-	case *Index:
-		bs := m.lref(x.X)
-		k, _ := m.eval(x.I)
-		return m.childSlot(bs, k)
+	case *Member, *Index:
+		return m.pathSlot(m.lpathOf(e))
 	}
 	m.tag("pinned:assign-to-nonpath")
 	// assignment to a temporary: evaluate for effects, store into a scratch slot
@@ -816,7 +860,12 @@ func (m *Model) childSlot(bs *Slot, key Val) *Slot {
 	case KNull:
 		m.tag("pinned:store-on-null")
 		m.fail("could not create this object")
-	case KNum, KStr, KBool:
+	case KStr:
+		if key.K == KNum {
+			m.tag("pinned:string-index") // storing through s[i] is unspecified (string indexing is [P])
+		}
+		m.fail("cannot set member on a string")
+	case KNum, KBool:
 		m.fail("cannot set member on a " + b.K.String())
 	}
 	m.tag("pinned:store-on-" + b.K.String())
